@@ -23,6 +23,7 @@ type c07Query struct {
 	Marker    string `json:"marker,omitempty"`     // marker (V1) / start-after (V2)
 	Walk      bool   `json:"walk,omitempty"`       // follow continuation markers to the end
 	OwnPrefix bool   `json:"own_prefix,omitempty"` // probe: prefix equal to the key of a leaf directory object
+	Resend    bool   `json:"resend,omitempty"`     // V2 walk: send the original start-after again with every continuation token
 }
 
 type c07Prog struct {
@@ -125,6 +126,7 @@ func (c07) Gen(seed uint64, run int, tier string) *core.Case {
 		q := c07GenQuery(r, p.Keys)
 		q.Walk = true
 		q.MaxKeys = 1 + r.IntN(4)
+		q.Resend = q.V2 && q.Marker != "" && i%2 == 1
 		p.Queries = append(p.Queries, q)
 	}
 	// a leaf directory object must be listed under its own prefix
@@ -394,6 +396,11 @@ func (c07) Exec(c *core.Case) (out *core.Outcome) {
 			if q.V2 {
 				if token != "" {
 					qs = append(qs, KV{K: "continuation-token", V: token})
+					if q.Resend {
+						// as the SDK paginators do: the original start-after is sent again with every token
+						qs = append(qs, KV{K: "start-after", V: q.Marker})
+						o.Probe("start_after_resent_with_token")
+					}
 				} else if marker != "" {
 					qs = append(qs, KV{K: "start-after", V: marker})
 				}
